@@ -207,5 +207,236 @@ theorem foldNames_length : ∀ (ps acc r : List Str), foldNames acc ps = some r 
       simp at this ⊢
       omega
 
+/-! ### terminal names -/
+
+theorem ite_all {p : Prop} [Decidable p] {a b : Str} (ha : a.all isIdentCont = true)
+    (hb : b.all isIdentCont = true) : (if p then a else b).all isIdentCont = true := by
+  split <;> assumption
+
+theorem specialName_all (c : Char) : (specialName c).all isIdentCont = true := by
+  unfold specialName
+  repeat (refine ite_all (by decide) ?_)
+  decide
+
+theorem termFold_all : ∀ (s : Str) (cap : Bool), (termFold cap s).all isIdentCont = true := by
+  intro s
+  induction s with
+  | nil => intro cap; simp [termFold]
+  | cons c cs ih =>
+    intro cap
+    simp only [termFold]
+    split
+    · rename_i h
+      simp only [List.all_cons, Bool.and_eq_true]
+      refine ⟨?_, ih false⟩
+      cases cap
+      · simpa using identCont_of_alnum h
+      · simpa using toUpper_identCont_of_alnum h
+    · simp only [List.all_append, Bool.and_eq_true]
+      exact ⟨specialName_all c, ih true⟩
+
+theorem genTermName_valid (s : Str) (hne : s ≠ []) : validIdent (genTermName s) = true := by
+  unfold genTermName
+  simp only []
+  by_cases he : ((termFold true s).isEmpty && !s.isEmpty) = true
+  · rw [if_pos he]; decide
+  · rw [if_neg he]
+    apply validIdent_guard _ (termFold_all s true)
+    intro hnil
+    apply he
+    cases s with
+    | nil => exact absurd rfl hne
+    | cons c cs => simp [hnil]
+
+/-! ### camel case -/
+
+theorem alnum_of_cont_ne_underscore {c : Char} (h : isIdentCont c = true) (hu : c ≠ '_') : c.isAlphanum = true := by
+  simp only [isIdentCont, Bool.or_eq_true, decide_eq_true_eq] at h
+  rcases h with h | h
+  · exact h
+  · exact absurd h hu
+
+theorem camelFold_all : ∀ (s : Str) (up : Bool) (last : Char), s.all isIdentCont = true →
+    (camelFold up last s).all isIdentCont = true := by
+  intro s
+  induction s with
+  | nil => intro up last _; simp [camelFold]
+  | cons c cs ih =>
+    intro up last h
+    simp only [List.all_cons, Bool.and_eq_true] at h
+    simp only [camelFold]
+    split
+    · exact ih _ _ h.2
+    · rename_i hu
+      have ha := alnum_of_cont_ne_underscore h.1 hu
+      split
+      · simp only [List.all_append, Bool.and_eq_true]
+        refine ⟨?_, ih _ _ h.2⟩
+        split
+        · simp only [List.all_cons, List.all_nil, Bool.and_true, Bool.and_eq_true]
+          exact ⟨by decide, toUpper_identCont_of_alnum ha⟩
+        · simp only [List.all_cons, List.all_nil, Bool.and_true]
+          exact toUpper_identCont_of_alnum ha
+      · simp only [List.all_cons, Bool.and_eq_true]
+        exact ⟨h.1, ih _ _ h.2⟩
+
+theorem camelFold_ne_nil : ∀ (s : Str) (up : Bool) (last : Char), (∃ c ∈ s, c ≠ '_') →
+    camelFold up last s ≠ [] := by
+  intro s
+  induction s with
+  | nil => intro up last ⟨c, hc, _⟩; cases hc
+  | cons c cs ih =>
+    intro up last ⟨d, hd, hdu⟩
+    simp only [camelFold]
+    split
+    · rename_i hcu
+      apply ih
+      cases hd with
+      | head => exact absurd hcu hdu
+      | tail _ hd => exact ⟨d, hd, hdu⟩
+    · split
+      · split <;> simp
+      · simp
+
+theorem camel_valid (name : Str) (h1 : (camelBody name).all isIdentCont = true)
+    (h2 : ∃ c ∈ camelBody name, c ≠ '_') : validIdent (toUpperCamelCase name) = true := by
+  unfold toUpperCamelCase
+  simp only []
+  exact validIdent_guard (camelFold_ne_nil _ _ _ h2) (camelFold_all _ _ _ h1)
+
+theorem validIdent_all {s : Str} (h : validIdent s = true) : s.all isIdentCont = true := by
+  cases s with
+  | nil => simp [validIdent] at h
+  | cons c cs =>
+    simp only [validIdent, Bool.and_eq_true] at h
+    simp only [List.all_cons, Bool.and_eq_true]
+    refine ⟨?_, h.2⟩
+    simp only [isIdentStart, isIdentCont, Char.isAlphanum, Bool.or_eq_true, decide_eq_true_eq] at *
+    rcases h.1 with h | h
+    · exact Or.inl (Or.inl h)
+    · exact Or.inr h
+
+theorem not_raw_of_all {s : Str} (h : s.all isIdentCont = true) : isRawIdentifier s = false := by
+  cases hr : isRawIdentifier s with
+  | false => rfl
+  | true =>
+    exfalso
+    unfold isRawIdentifier at hr
+    split at hr
+    · simp only [List.all_cons, Bool.and_eq_true] at h
+      exact absurd h.2.1 (by decide)
+    · cases hr
+
+theorem camelBody_of_validIdent {s : Str} (h : validIdent s = true) : camelBody s = s := by
+  unfold camelBody
+  rw [not_raw_of_all (validIdent_all h)]
+  rfl
+
+/-! ### snake case -/
+
+theorem snakeFold_all : ∀ (s acc : Str) (last : Char), acc.all isIdentCont = true → s.all isIdentCont = true →
+    (snakeFold acc last s).all isIdentCont = true := by
+  intro s
+  induction s with
+  | nil => intro acc last ha _; simpa [snakeFold] using ha
+  | cons c cs ih =>
+    intro acc last ha hs
+    simp only [List.all_cons, Bool.and_eq_true] at hs
+    simp only [snakeFold]
+    apply ih _ _ _ hs.2
+    have hl := toLower_identCont hs.1
+    have hu : isIdentCont '_' = true := by decide
+    split
+    · simp [List.all_append, ha, hl]
+    · split
+      · split <;> simp [List.all_append, ha, hu]
+      · split
+        · simp [List.all_append, ha, hl]
+        · split
+          · split <;> simp [List.all_append, ha, hl, hu]
+          · simp [List.all_append, ha, hs.1]
+
+theorem snakeFold_length_ge : ∀ (s acc : Str) (last : Char), acc.length ≤ (snakeFold acc last s).length := by
+  intro s
+  induction s with
+  | nil => intro acc last; simp [snakeFold]
+  | cons c cs ih =>
+    intro acc last
+    simp only [snakeFold]
+    refine Nat.le_trans ?_ (ih _ _)
+    split
+    · simp
+    · split
+      · split <;> simp
+      · split
+        · simp
+        · split
+          · split <;> simp
+          · simp
+
+theorem snakeFold_ne_nil (s : Str) (hne : s ≠ []) : snakeFold [] '.' s ≠ [] := by
+  cases s with
+  | nil => exact absurd rfl hne
+  | cons c cs =>
+    simp only [snakeFold, List.isEmpty_nil, ↓reduceIte, List.nil_append]
+    intro h
+    have := snakeFold_length_ge cs [c.toLower] c
+    rw [h] at this
+    simp at this
+
+/-- The string handed to `escape_rust_keyword` is an identifier. -/
+theorem snake_pre_valid (name : Str) (hne : name ≠ []) (h : name.all isIdentCont = true) :
+    validIdent (if startsWithDigit (snakeFold [] '.' name) then '_' :: snakeFold [] '.' name
+      else snakeFold [] '.' name) = true :=
+  validIdent_guard (snakeFold_ne_nil name hne) (snakeFold_all name [] '.' (by simp) h)
+
+/-! ### the oracle's decision functions -/
+
+theorem firstDup_none_iff (l : List Str) : firstDup l = none ↔ l.Nodup := by
+  induction l with
+  | nil => simp [firstDup]
+  | cons x xs ih =>
+    simp only [firstDup, List.nodup_cons]
+    split
+    · rename_i h
+      simp only [reduceCtorEq, false_iff, not_and]
+      intro hx
+      exact absurd (by simpa using h) hx
+    · rename_i h
+      rw [ih]
+      constructor
+      · intro hn; exact ⟨by simpa using h, hn⟩
+      · intro hn; exact hn.2
+
+theorem notFunctional_none_iff (ps : List (Str × Str)) :
+    notFunctional ps = none ↔ ∀ p ∈ ps, ∀ q ∈ ps, p.1 = q.1 → p.2 = q.2 := by
+  induction ps with
+  | nil => simp [notFunctional]
+  | cons p ps ih =>
+    obtain ⟨a, b⟩ := p
+    simp only [notFunctional]
+    split
+    · rename_i h
+      simp only [reduceCtorEq, false_iff]
+      simp only [List.any_eq_true, Bool.and_eq_true, beq_iff_eq, bne_iff_ne, ne_eq] at h
+      obtain ⟨q, hq, hqa, hqb⟩ := h
+      intro hall
+      have := hall (a, b) (by simp) q (by simp [hq]) hqa.symm
+      exact hqb this.symm
+    · rename_i h
+      rw [ih]
+      simp only [List.any_eq_true, Bool.and_eq_true, beq_iff_eq, bne_iff_ne, ne_eq, not_exists, not_and,
+        Decidable.not_not] at h
+      constructor
+      · intro hall p hp q hq hpq
+        simp only [List.mem_cons] at hp hq
+        rcases hp with rfl | hp <;> rcases hq with rfl | hq
+        · rfl
+        · exact (h q hq hpq.symm).symm
+        · exact h p hp hpq
+        · exact hall p hp q hq hpq
+      · intro hall p hp q hq hpq
+        exact hall p (List.mem_cons_of_mem _ hp) q (List.mem_cons_of_mem _ hq) hpq
+
 end Names
 end ParolModel
